@@ -316,3 +316,17 @@ PLAN_F0 = {"profile": "plan", "opts": dict(world.PLAN_OPTS, frequencies=[0], p_z
                                              policies=["TetriSchedGurobi", "TetriSchedCPLEX", "TetriSchedGurobi", "ILP"])}
 G_F0 = {"profile": "greedy", "opts": {"p_batch_loader": 0, "frequencies": [0, 0, 1], "zero_runtime": True}}
 PROPS["C05"]["streams"] = [G, G_TIES, G_ENF, G_COND, PLAN, CW, PLAN_F0, PLAN_F0, G_F0]
+
+# ------------------------------------------------------------------ crash-point enumeration (every cut of a base run)
+from . import cuts  # noqa: E402
+
+_MODS["cuts"] = type("M", (), {"run": staticmethod(cuts.run), "case": staticmethod(cuts.case),
+                               "run_case": staticmethod(cuts.run_case_), "shrink_ops": staticmethod(cuts.shrink_case)})
+CUTS_G = {"kind": "cuts", "profile": "greedy", "opts": {"p_batch_loader": 0, "max_nodes": 5, "graphs": 2}}
+CUTS_CH = {"kind": "cuts", "profile": "chaos", "opts": {"p_batch_loader": 0, "max_nodes": 5, "graphs": 2}}
+CUTS_ENF = {"kind": "cuts", "profile": "greedy", "opts": {"p_batch_loader": 0, "max_nodes": 5, "graphs": 2,
+                                                           "p_enforce": 0.8, "p_drop": 0.5, "p_conditionals": 0.5}}
+for _p in ("C08", "C05"):
+    PROPS[_p].update({"run": any_run, "case": any_case, "run_case": any_run_case, "shrink": any_shrink})
+PROPS["C08"]["streams"] = PROPS["C08"]["streams"] + [CUTS_G, CUTS_CH, CUTS_ENF]
+PROPS["C05"]["streams"] = PROPS["C05"]["streams"] + [CUTS_ENF]
